@@ -11,6 +11,9 @@ Decided:
   FLOW-C14c   update_frame: when no explicit embedding is given the one passed on derives from
               frame_embedding(frame_id) of the updated frame; apply_records records (frame_id, embedding) for the
               frame it pushes.
+  MPT-C14d    open_locked loads every persisted in-memory index (lex, Tantivy, vec, clip) *before* it replays the WAL:
+              recovery rebuilds the indexes from the in-memory ones (build_vec_artifact copies self.vec_index), so a
+              loader that can run after recover_wal means the replay starts from an empty index and persists it.
 Not decided: the exact membership over histories (values)."""
 from . import lib
 from .facts import Place, op_place, rv_places
@@ -31,6 +34,7 @@ def run(ctx):
     F = ctx.facts()
     _artifact(ctx, F)
     _carry(ctx, F)
+    _open_order(ctx, F)
 
 
 def _variants(ctx, F):
@@ -79,6 +83,9 @@ def _variants(ctx, F):
                             uses = True
             if uses:
                 ctx.ok('AGREE-C14a', fn, 'arm %s uses its payload' % v)
+            elif reachable_builders.get(v) and v == 'Compressed':
+                ctx.candidate('AGREE-C14a', fn, 'arm Compressed ignores its payload and %s is reachable in this configuration (parallel_segments + PQ compression); '
+                              'not reproduced against the real code, so not a verdict' % ', '.join(reachable_builders[v]), detail='payload-ignored:' + v)
             elif reachable_builders.get(v):
                 ctx.bad('AGREE-C14a', fn, 'arm %s ignores its payload (constant result) although %s is reachable from the Memvid API in this configuration: '
                         'vectors held in that representation vanish at the next rebuild / are never removed' % (v, ', '.join(reachable_builders[v])),
@@ -161,3 +168,32 @@ def _carry(ctx, F):
                 ctx.ok('FLOW-C14c', ar, '(frame_id = toc.frames.len(), entry.embedding) recorded for the pushed frame', line=p.line)
             else:
                 ctx.bad('FLOW-C14c', ar, 'the embedding is not recorded under the id of the frame being pushed', line=p.line, detail='embedding-id')
+
+
+LOADERS = ('Memvid::load_vec_index_from_manifest', 'Memvid::load_lex_index_from_manifest', 'Memvid::init_tantivy', 'Memvid::load_clip_index_from_manifest')
+
+
+def _open_order(ctx, F):
+    ctx.rule('MPT-C14d', 'open_locked: every index loader runs before recover_wal (replay rebuilds from the in-memory indexes)')
+    for key in ('Memvid::open_locked',):
+        fn = ctx.need('MPT-C14d', key)
+        if fn is None:
+            continue
+        ctx.touch(fn, len(fn.blocks))
+        rw = fn.calls_to('Memvid::recover_wal')
+        loads = [c for c in fn.calls() if c.is_(LOADERS)]
+        ctx.floor('MPT-C14d', len(loads), 3, 'index loaders in open_locked')
+        if not rw:
+            ctx.lost('MPT-C14d', 'open_locked no longer calls recover_wal')
+            continue
+        after = fn.reachable(rw[0].bb) - {rw[0].bb}
+        for l in loads:
+            ctx.evaluations += 1
+            if l.bb in after:
+                ctx.bad('MPT-C14d', fn, '%s can run after recover_wal: the WAL replay rebuilds and persists the index from an empty in-memory index (committed vectors are lost)'
+                        % l.key.split('::')[-1], line=l.line, detail='loader-after-replay:' + l.key.split('::')[-1])
+            else:
+                ctx.ok('MPT-C14d', fn, '%s runs before the WAL replay' % l.key.split('::')[-1], line=l.line)
+        # the vector loader must be reachable at all before the replay when vec is enabled
+        if not any(l.is_('Memvid::load_vec_index_from_manifest') and rw[0].bb in fn.reachable(l.bb) for l in loads):
+            ctx.bad('MPT-C14d', fn, 'the vector index is not loaded before the WAL replay', detail='vec-not-loaded-before-replay')
